@@ -10,4 +10,5 @@ def check(run, replay=None):
                 "(flatten over the parts) and schema (any_of over the parts) are assembled; L2: compiled corpus, response_schemas() of "
                 "every part and of the contract-level query vs schema_for!(declared type) computed in the same binary, names vs the "
                 "names the queries serialise under; non-trivial = distinct program / part")
-    return msgprops.check(run, "C16", "Props/C16", THEOREMS, {"decode": False, "schemas": True}, replay)
+    return msgprops.check(run, "C16", "Props/C16", THEOREMS, {"decode": False, "schemas": True}, replay,
+                          translated=("Props/C16T", ["c16_translated_response_schemas_calls"]))
